@@ -23,12 +23,13 @@ VARIABLES l,      \* cursor into Trace
                   \* logged operations by the documented arithmetic only -- independent of the transcription's
                   \* internal state (ref, tree, ctab), so a layout drift can never turn into a false alarm
           kvTreeOnly, \* keys whose last version change wrote no record (check_vhash; C02 adoption)
-          kvCtab      \* keys found in the durable collision table at the last Open (signature of finding F8a)
+          kvCtab,     \* keys the collision table holds, as logged after the last Set / Get / Incr / Open (finding signatures)
+          kvUnprot    \* colliding keys whose last accepted write happened while NO key of their group was in that table
+                      \* (such a key is not protected by the table: signature of finding F8a)
 
 Trace == ndJsonDeserialize("trace.ndjson")
 
-tvars == <<l, obs, bad, drift, lead, sid, kv, kvTreeOnly, kvCtab>>
-KvSame == UNCHANGED <<kv, kvTreeOnly, kvCtab>>
+tvars == <<l, obs, bad, drift, lead, sid, kv, kvTreeOnly, kvCtab, kvUnprot>>
 NoKv == [ver |-> 0, val |-> 0, flag |-> 0, vh |-> 0]
 NoAux == [ok |-> FALSE, b |-> 0, e |-> 0, why |-> ""]
 NoObs == [e |-> [a |-> "none", n |-> 0], pre |-> NoKv, aux |-> NoAux]
@@ -74,8 +75,12 @@ KvAfterSet(old, e) ==
 \* ... and after an Incr event (incr's rule -- old+1 if live, else 1 -- is taken from the code: an assumption)
 KvAfterIncr(old, e) ==
   LET live == old.ver > 0
-      num == live /\ old.flag = FlagIncr /\ old.val >= NumBase IN
-  IF live /\ ~num THEN old
+      num == live /\ old.flag = FlagIncr /\ old.val >= NumBase
+      want == IF ~live THEN e.d ELSE IF num THEN old.val - NumBase + e.d ELSE 0 IN
+  \* a colliding key whose incr answered differently (reported as C13_Incr) continues from what the store answered
+  IF Colliding(e.k) /\ e.res # want
+    THEN (IF e.res = 0 THEN old ELSE [ver |-> 1, val |-> NumBase + e.res, flag |-> FlagIncr, vh |-> e.vh])
+  ELSE IF live /\ ~num THEN old
   ELSE [ver |-> IF live THEN old.ver + 1 ELSE 1, val |-> NumBase + (IF live THEN old.val - NumBase ELSE 0) + e.d, flag |-> FlagIncr,
         vh |-> e.vh]
 
@@ -92,10 +97,13 @@ KfTag(k) == IF k \in DOMAIN gh.kf THEN "!" \o gh.kf[k] ELSE ""
 KfTagR(k, afteropen, aftergc, res) ==
   IF k \in DOMAIN gh.kf THEN "!" \o gh.kf[k]
   \* (F18 is marked by the specification at the step where the pass drops the key's current record: gh.kf above)
-  \* (F8a needs that NO key of the group was in the collision table at that restart: a detected group is durable state
-  \*  and must protect its members)
-  ELSE IF Colliding(k) /\ kv[k].ver > 0 /\ afteropen /\ res = "miss"
-          /\ (\A k2 \in Keys : HashOf(k2) = HashOf(k) => k2 \notin kvCtab) THEN "!F8a"
+  \* (F8a: the victim is not in the collision table and was last written while no key of its group was in it; a key
+  \*  written into a DETECTED group joins the table and must be protected by it)
+  ELSE IF Colliding(k) /\ kv[k].ver > 0 /\ afteropen /\ res = "miss" /\ k \notin kvCtab /\ k \in kvUnprot THEN "!F8a"
+  \* F22: a pass meets records of a key that is NOT in the collision table although its group is: gc.go "guesses" that
+  \* every such record is the newest; the first one copied (the oldest) enters the table and the key's later records are
+  \* then dropped as superseded
+  ELSE IF Colliding(k) /\ aftergc /\ k \notin kvCtab /\ (\E k2 \in Keys : k2 # k /\ HashOf(k2) = HashOf(k) /\ k2 \in kvCtab) THEN "!F22"
   ELSE IF Colliding(k) /\ conf.checkVHash THEN "!F8b"
   ELSE ""
 
@@ -111,6 +119,16 @@ Checks(o) ==
            num == live /\ o.pre.flag = FlagIncr /\ o.pre.val >= NumBase
            want == IF ~live THEN e.d ELSE IF num THEN o.pre.val - NumBase + e.d ELSE 0 IN
        (IF e.res = want THEN {} ELSE {<<sid, e.n, "C01_Incr">>})
+  ELSE IF e.a = "Incr" THEN
+       \* colliding key: the same arithmetic; an incr that treats a LIVE key as absent after a restart is the F8a loss seen
+       \* through a write (the victim is not protected by the collision table)
+       LET live == o.pre.ver > 0
+           num == live /\ o.pre.flag = FlagIncr /\ o.pre.val >= NumBase
+           want == IF ~live THEN e.d ELSE IF num THEN o.pre.val - NumBase + e.d ELSE 0
+           tag == IF e.k \in DOMAIN gh.kf THEN "!" \o gh.kf[e.k]
+                  ELSE IF live /\ e.res = e.d /\ e.afteropen /\ e.k \notin kvCtab /\ e.k \in kvUnprot THEN "!F8a"
+                  ELSE IF conf.checkVHash THEN "!F8b" ELSE "" IN
+       (IF e.res = want THEN {} ELSE {<<sid, e.n, "C13_Incr" \o tag>>})
   ELSE IF e.a = "GCStart" THEN
        \* C17 range clause: the range the code resolved equals RangeOf
        (IF e.second \/ ~e.agesure \/ (o.aux.ok /\ e.rb = o.aux.b /\ e.re = o.aux.e) THEN {} ELSE {<<sid, e.n, "C17_Range">>})
@@ -206,6 +224,24 @@ Drift(o) ==
   ELSE IF e.a = "Get" /\ e.res = "hit" /\ (loc["c1"].c # e.c \/ loc["c1"].off # e.off) THEN {<<sid, e.n, "get-pos">>}
   ELSE {}
 
+\* After a read of key k was excused by a LISTED finding (the store has knowingly lost or replaced k), the reference map
+\* is knowingly wrong about k: it adopts what the store serves for k from then on, so that only NEW deviations are reported.
+ExcusedKeys(o) ==
+  LET e == o.e IN
+  IF e.a = "Get" THEN (IF ~ReadOK(e, kv[e.k], LevelOf(e.k)) /\ KfTagR(e.k, e.afteropen, e.aftergc, e.res) # "" THEN {e.k} ELSE {})
+  ELSE IF e.a = "ReadAll" THEN {k \in DOMAIN e.reads : k \in Keys /\ ~ReadOK(e.reads[k], kv[k], LevelOf(k))
+                                                          /\ KfTagR(k, e.afteropen, e.aftergc, e.reads[k].res) # ""}
+  ELSE {}
+FromRead(g) == IF g.res = "hit" /\ g.ver # 0 THEN [ver |-> g.ver, val |-> IF g.ver > 0 THEN g.val ELSE 0, flag |-> IF g.ver > 0 THEN g.flag ELSE 0, vh |-> 0]
+               ELSE NoKv
+CtabOf(e) == {e.ctab[i] : i \in 1..Len(e.ctab)}
+\* (kvCtab still holds the table as it was BEFORE the operation being consumed)
+UnprotAfter(k, accepted) == IF ~accepted \/ ~Colliding(k) THEN kvUnprot
+                            ELSE IF \E k2 \in Keys : HashOf(k2) = HashOf(k) /\ k2 \in kvCtab THEN kvUnprot \ {k} ELSE kvUnprot \cup {k}
+ReadOf(o, k) == IF o.e.a = "Get" THEN o.e ELSE o.e.reads[k]
+KB == LET X == ExcusedKeys(obs) IN IF X = {} THEN kv ELSE [k \in Keys |-> IF k \in X THEN FromRead(ReadOf(obs, k)) ELSE kv[k]]
+KvSame == kv' = KB /\ UNCHANGED <<kvTreeOnly, kvCtab, kvUnprot>>
+
 \* cheap scalar state logged with every state-changing operation (head file, per-file size and number of buffered
 \* records, next-GC mark) against the specification's state after the same operation
 StateDrift(o) ==
@@ -237,40 +273,42 @@ TrReset ==
   /\ ResetMem(ConfOf(Ev.conf))
   /\ disk' = FreshDisk /\ recs' = <<>> /\ ref' = [k \in Keys |-> NoRef] /\ gh' = FreshGh
   /\ Settle /\ obs' = NoObs /\ sid' = Ev.sid
-  /\ kv' = [k \in Keys |-> NoKv] /\ kvTreeOnly' = {} /\ kvCtab' = {}
+  /\ kv' = [k \in Keys |-> NoKv] /\ kvTreeOnly' = {} /\ kvCtab' = {} /\ kvUnprot' = {}
 
 Stuck(what) == /\ drift' = drift \cup Drift(obs) \cup {<<sid, Ev.n, what>>}
                /\ bad' = bad \cup Checks(obs) /\ lead' = lead \cup StateChecks(obs)
                /\ obs' = NoObs /\ UNCHANGED vars
 
 KvSetStep ==
-  LET new == KvAfterSet(kv[Ev.k], Ev)
-      treeOnly == new # kv[Ev.k] /\ new.val = kv[Ev.k].val /\ conf.checkVHash /\ Ev.rev > 0 /\ kv[Ev.k].ver > 0 /\ ~Colliding(Ev.k)
-  IN /\ kv' = [kv EXCEPT ![Ev.k] = new]
-     /\ kvTreeOnly' = (IF new = kv[Ev.k] THEN kvTreeOnly ELSE IF treeOnly THEN kvTreeOnly \cup {Ev.k} ELSE kvTreeOnly \ {Ev.k})
-     /\ kvCtab' = kvCtab
+  LET new == KvAfterSet(KB[Ev.k], Ev)
+      treeOnly == new # KB[Ev.k] /\ new.val = KB[Ev.k].val /\ conf.checkVHash /\ Ev.rev > 0 /\ KB[Ev.k].ver > 0 /\ ~Colliding(Ev.k)
+  IN /\ kv' = [KB EXCEPT ![Ev.k] = new]
+     /\ kvTreeOnly' = (IF new = KB[Ev.k] THEN kvTreeOnly ELSE IF treeOnly THEN kvTreeOnly \cup {Ev.k} ELSE kvTreeOnly \ {Ev.k})
+     /\ kvCtab' = CtabOf(Ev)
+     /\ kvUnprot' = UnprotAfter(Ev.k, new # KB[Ev.k])
 
 TrSet ==
   /\ IsEv("Set") /\ ~OthersBusy /\ Adv /\ sid' = sid
   /\ IF up
        THEN /\ KvSetStep
             /\ W_Begin("c1", Ev.k, Ev.val, Ev.rev, Ev.flag, Ev.nblk, Ev.vh)
-            /\ Settle /\ obs' = [e |-> Ev, pre |-> kv[Ev.k], aux |-> NoAux]
+            /\ Settle /\ obs' = [e |-> Ev, pre |-> KB[Ev.k], aux |-> NoAux]
        ELSE KvSame /\ Stuck("set-while-down")
 
 TrGet ==
-  /\ IsEv("Get") /\ ~OthersBusy /\ Adv /\ sid' = sid /\ KvSame
+  /\ IsEv("Get") /\ ~OthersBusy /\ Adv /\ sid' = sid /\ kv' = KB /\ UNCHANGED <<kvTreeOnly, kvUnprot>> /\ kvCtab' = CtabOf(Ev)
   /\ IF up
-       THEN R_Begin("c1", Ev.k) /\ Settle /\ obs' = [e |-> Ev, pre |-> kv[Ev.k], aux |-> NoAux]
+       THEN R_Begin("c1", Ev.k) /\ Settle /\ obs' = [e |-> Ev, pre |-> KB[Ev.k], aux |-> NoAux]
        ELSE Stuck("get-while-down")
 
 TrIncr ==
   /\ IsEv("Incr") /\ ~OthersBusy /\ Adv /\ sid' = sid
   /\ IF up
-       THEN /\ kv' = [kv EXCEPT ![Ev.k] = KvAfterIncr(kv[Ev.k], Ev)]
+       THEN /\ kv' = [KB EXCEPT ![Ev.k] = KvAfterIncr(KB[Ev.k], Ev)]
             \* a refused incr (non-numeric old value) writes nothing: a tree-only version stays tree-only
-            /\ kvTreeOnly' = (IF KvAfterIncr(kv[Ev.k], Ev) = kv[Ev.k] THEN kvTreeOnly ELSE kvTreeOnly \ {Ev.k}) /\ kvCtab' = kvCtab
-            /\ I_Begin("c1", Ev.k, Ev.d, Ev.vh) /\ Settle /\ obs' = [e |-> Ev, pre |-> kv[Ev.k], aux |-> NoAux]
+            /\ kvTreeOnly' = (IF KvAfterIncr(KB[Ev.k], Ev) = KB[Ev.k] THEN kvTreeOnly ELSE kvTreeOnly \ {Ev.k}) /\ kvCtab' = CtabOf(Ev)
+            /\ kvUnprot' = UnprotAfter(Ev.k, KvAfterIncr(KB[Ev.k], Ev) # KB[Ev.k])
+            /\ I_Begin("c1", Ev.k, Ev.d, Ev.vh) /\ Settle /\ obs' = [e |-> Ev, pre |-> KB[Ev.k], aux |-> NoAux]
        ELSE KvSame /\ Stuck("incr-while-down")
 
 TrFlush ==
@@ -300,14 +338,14 @@ RmFiles(d, rm) ==
 
 KvOpenStep ==
   /\ kv' = [k \in Keys |->
-              IF k \notin DOMAIN Ev.meta THEN kv[k]
-              ELSE IF kv[k].ver < 0
+              IF k \notin DOMAIN Ev.meta THEN KB[k]
+              ELSE IF KB[k].ver < 0
                 THEN (IF Ev.meta[k] = 0 THEN NoKv
-                      ELSE IF Ev.meta[k] < 0 THEN [kv[k] EXCEPT !.ver = Ev.meta[k]] ELSE kv[k])
-              ELSE IF k \in kvTreeOnly /\ Ev.meta[k] > 0 THEN [kv[k] EXCEPT !.ver = Ev.meta[k]]
-              ELSE kv[k]]
+                      ELSE IF Ev.meta[k] < 0 THEN [KB[k] EXCEPT !.ver = Ev.meta[k]] ELSE KB[k])
+              ELSE IF k \in kvTreeOnly /\ Ev.meta[k] > 0 THEN [KB[k] EXCEPT !.ver = Ev.meta[k]]
+              ELSE KB[k]]
   /\ kvTreeOnly' = {}
-  /\ kvCtab' = {Ev.ctab[i] : i \in 1..Len(Ev.ctab)}
+  /\ kvCtab' = CtabOf(Ev) /\ UNCHANGED kvUnprot
 
 TrOpen ==
   /\ IsEv("Open") /\ Quiet /\ Adv /\ sid' = sid
@@ -406,7 +444,7 @@ Silent == /\ UNCHANGED tvars
 
 TraceInit ==
   /\ l = 1 /\ obs = NoObs /\ bad = {} /\ drift = {} /\ lead = {} /\ sid = ""
-  /\ kv = [k \in Keys |-> NoKv] /\ kvTreeOnly = {} /\ kvCtab = {} /\ TLCSet(1, 1)
+  /\ kv = [k \in Keys |-> NoKv] /\ kvTreeOnly = {} /\ kvCtab = {} /\ kvUnprot = {} /\ TLCSet(1, 1)
   /\ Init([hashOf |-> [k \in Keys |-> CHOOSE h \in HashIds : TRUE], rank |-> [k \in Keys |-> 0], fileMax |-> 4,
            splitCap |-> 2, checkVHash |-> FALSE, dumpEager |-> FALSE, bodyMaxBlk |-> 1, mut |-> {}])
 
